@@ -5622,7 +5622,8 @@ func (t *Terminal) Loop() error {
 				}
 			case actToggleSearch:
 				t.paused = !t.paused
-				changed = !t.paused
+				// Do not take back what an earlier action has asked for
+				changed = changed || !t.paused
 				req(reqPrompt)
 			case actToggleTrack:
 				switch t.track {
